@@ -436,6 +436,42 @@ func runC16Hammer(r *Run) {
 			}
 		}(g)
 	}
+	// warm-up, again and again: a freshly assembled ExtAuthZFilter over many chains whose first checks all overlap
+	// (whatever a filter builds lazily per chain on first use is built concurrently here)
+	wg.Add(1)
+	go func() {
+		defer wg.Done()
+		for round := 0; time.Now().Before(deadline); round++ {
+			wcfg := &configv1.Config{}
+			for k := 0; k < 24; k++ {
+				name := fmt.Sprintf("w%d", k)
+				oc := mk(name, func(o *oidcv1.OIDCConfig) {})
+				wcfg.Chains = append(wcfg.Chains, &configv1.FilterChain{Name: name,
+					Match:   &configv1.Match{Header: "x-app", Criteria: &configv1.Match_Equality{Equality: name}},
+					Filters: []*configv1.Filter{{Type: &configv1.Filter_Oidc{Oidc: oc}}}})
+			}
+			wfac := oidc.NewSessionStoreFactory(wcfg)
+			if wfac.PreRun() != nil {
+				return
+			}
+			wf := server.NewExtAuthZFilter(wcfg, pool, staticJWKS{}, wfac)
+			var wwg sync.WaitGroup
+			for g := 0; g < 12; g++ {
+				wwg.Add(1)
+				go func(g int) {
+					defer wwg.Done()
+					for k := 0; k < 24; k++ {
+						name := fmt.Sprintf("w%d", (k*7+g*5)%24)
+						guarded("warm-up", func() {
+							_, _ = wf.Check(context.Background(), httpReq("https", "app", "/"+name+"/page", "", map[string]string{"x-app": name}))
+						})
+						count("warm-up:check")
+					}
+				}(g)
+			}
+			wwg.Wait()
+		}
+	}()
 	// background: secret rotation
 	wg.Add(1)
 	go func() {
@@ -471,8 +507,14 @@ func runC16Hammer(r *Run) {
 	go func() {
 		defer wg.Done()
 		for i := 0; time.Now().Before(deadline); i++ {
+			// every third load uses settings nobody has loaded yet (a first-time load, which starts a watcher) while the CA
+			// file keeps rotating under the watchers of the settings loaded before
+			iv := time.Duration(10+i%3) * time.Millisecond
+			if i%3 == 0 {
+				iv = time.Duration(10_000_000 + i%200_000) // 10 ms + i ns: distinct settings, same pace
+			}
 			oc := &oidcv1.OIDCConfig{TrustedCaConfig: &oidcv1.OIDCConfig_TrustedCertificateAuthorityFile{TrustedCertificateAuthorityFile: caFile},
-				TrustedCertificateAuthorityRefreshInterval: durationpb.New(time.Duration(10+i%3) * time.Millisecond)}
+				TrustedCertificateAuthorityRefreshInterval: durationpb.New(iv)}
 			guarded("tls-load", func() {
 				c, err := inthttp.NewHTTPClient(oc, pool, nil)
 				if err == nil {
